@@ -97,6 +97,13 @@ pub struct Profile {
     pub p_cancel: (u32, u32),
     /// chance that an ask_with_timeout is issued by a busy caller (polled late)
     pub p_late: (u32, u32),
+    /// chance that a hook issues two or three of its sends concurrently (join_all)
+    pub p_par: (u32, u32),
+    /// chance that a plain tell / ask future is created, left un-polled while the caller yields,
+    /// and then polled or dropped
+    pub p_lazy: (u32, u32),
+    /// chance that a real spin lasts more than a second (metrics arithmetic beyond sub-second values)
+    pub p_spin_long: (u32, u32),
 }
 
 impl Profile {
@@ -162,6 +169,9 @@ impl Profile {
             max_peer_sends: 1,
             p_cancel: (0, 1),
             p_late: (0, 1),
+            p_par: (0, 1),
+            p_lazy: (0, 1),
+            p_spin_long: (0, 1),
         }
     }
 }
@@ -196,6 +206,7 @@ impl<'a> Gen<'a> {
             _ => How::AskJoin,
         };
         let h = self.maybe_late(h);
+        let h = self.maybe_lazy(h);
         self.maybe_cancel(h)
     }
 
@@ -206,6 +217,17 @@ impl<'a> Gen<'a> {
         match h {
             How::Tell if self.ch.chance(self.p.p_cancel.0, self.p.p_cancel.1) => How::TellC(self.timeout()),
             How::Ask if self.ch.chance(self.p.p_cancel.0, self.p.p_cancel.1) => How::AskC(self.timeout()),
+            other => other,
+        }
+    }
+
+    fn maybe_lazy(&mut self, h: How) -> How {
+        if self.p.p_lazy.0 == 0 {
+            return h;
+        }
+        match h {
+            How::Tell if self.ch.chance(self.p.p_lazy.0, self.p.p_lazy.1) => How::TellL { yields: self.ch.range(0, 3) as u8, drop: self.ch.chance(1, 3) },
+            How::Ask if self.ch.chance(self.p.p_lazy.0, self.p.p_lazy.1) => How::AskL { yields: self.ch.range(0, 3) as u8, drop: self.ch.chance(1, 3) },
             other => other,
         }
     }
@@ -233,7 +255,7 @@ impl<'a> Gen<'a> {
         };
         match mode {
             ClientMode::Task => {
-                if base != How::AskJoin && base.cancel_after().is_none() && base.late().is_none() && self.ch.chance(self.p.p_task_block.0, self.p.p_task_block.1) {
+                if base != How::AskJoin && base.cancel_after().is_none() && base.late().is_none() && !matches!(base, How::TellL { .. } | How::AskL { .. }) && self.ch.chance(self.p.p_task_block.0, self.p.p_task_block.1) {
                     let t = self.timeout();
                     blockify(base, Some(t), false)
                 } else {
@@ -241,7 +263,7 @@ impl<'a> Gen<'a> {
                 }
             }
             _ => {
-                if base == How::AskJoin || base.cancel_after().is_some() || base.late().is_some() {
+                if base == How::AskJoin || base.cancel_after().is_some() || base.late().is_some() || matches!(base, How::TellL { .. } | How::AskL { .. }) {
                     return base;
                 }
                 match self.ch.weighted(&self.p.w_block) {
@@ -290,7 +312,10 @@ impl<'a> Gen<'a> {
             v.push(Step::Yield(n));
         }
         if self.p.spin_us > 0 && self.ch.chance(2, 3) {
-            let us = self.ch.range(0, self.p.spin_us);
+            let mut us = self.ch.range(0, self.p.spin_us);
+            if self.ch.chance(self.p.p_spin_long.0, self.p.p_spin_long.1) {
+                us += 1_000_000;
+            }
             v.push(Step::Spin(us));
         }
         for round in 0..self.p.max_peer_sends {
@@ -330,6 +355,23 @@ impl<'a> Gen<'a> {
                         }
                     }
                 }
+            }
+        }
+        // optionally issue the sends of this hook concurrently instead of one after the other
+        if self.p.p_par.0 > 0 {
+            let sends: Vec<usize> = v.iter().enumerate().filter(|(_, s)| matches!(s, Step::Send { .. })).map(|(i, _)| i).collect();
+            if sends.len() >= 2 && self.ch.chance(self.p.p_par.0, self.p.p_par.1) {
+                let mut par = vec![];
+                let mut rest = vec![];
+                for s in v.drain(..) {
+                    if matches!(s, Step::Send { .. }) {
+                        par.push(s);
+                    } else {
+                        rest.push(s);
+                    }
+                }
+                v = rest;
+                v.push(Step::Par(par));
             }
         }
         if self.ch.chance(self.p.p_keep.0, self.p.p_keep.1) {
